@@ -175,6 +175,91 @@ func (c *Ctx) grammar() (*yaccGrammar, error) {
 	return parseYacc(string(b))
 }
 
+// followSets computes FIRST/FOLLOW for the grammar (terminals = symbols that are not rule names).
+func (g *yaccGrammar) followSets() map[string]map[string]bool {
+	isNT := func(s string) bool { _, ok := g.rules[s]; return ok }
+	nullable := map[string]bool{}
+	first := map[string]map[string]bool{}
+	follow := map[string]map[string]bool{}
+	for n := range g.rules {
+		first[n] = map[string]bool{}
+		follow[n] = map[string]bool{}
+	}
+	add := func(dst map[string]bool, src map[string]bool) bool {
+		ch := false
+		for k := range src {
+			if !dst[k] {
+				dst[k] = true
+				ch = true
+			}
+		}
+		return ch
+	}
+	firstOf := func(sym string) map[string]bool {
+		if isNT(sym) {
+			return first[sym]
+		}
+		return map[string]bool{sym: true}
+	}
+	for changed := true; changed; {
+		changed = false
+		for n, r := range g.rules {
+			for _, alt := range r.alts {
+				allNull := true
+				for _, sym := range alt {
+					if add(first[n], firstOf(sym)) {
+						changed = true
+					}
+					if !(isNT(sym) && nullable[sym]) {
+						allNull = false
+						break
+					}
+				}
+				if allNull && !nullable[n] {
+					nullable[n] = true
+					changed = true
+				}
+			}
+		}
+	}
+	// FOLLOW for every symbol (terminals too: what may come after a token)
+	for _, r := range g.rules {
+		for _, alt := range r.alts {
+			for _, sym := range alt {
+				if follow[sym] == nil {
+					follow[sym] = map[string]bool{}
+				}
+			}
+		}
+	}
+	for changed := true; changed; {
+		changed = false
+		for n, r := range g.rules {
+			for _, alt := range r.alts {
+				for i, sym := range alt {
+					rest := alt[i+1:]
+					allNull := true
+					for _, nx := range rest {
+						if add(follow[sym], firstOf(nx)) {
+							changed = true
+						}
+						if !(isNT(nx) && nullable[nx]) {
+							allNull = false
+							break
+						}
+					}
+					if allNull {
+						if add(follow[sym], follow[n]) {
+							changed = true
+						}
+					}
+				}
+			}
+		}
+	}
+	return follow
+}
+
 // ---------------------------------------------------------------------------
 // GEN-YACC
 
@@ -601,6 +686,37 @@ func ruleLexMode(c *Ctx) {
 		comment = stopsAtNL && rec
 	}
 	c.check(comment, name+"|comment", c.pos(fn.Pos()), name, "`;` discards up to the newline and scans the next token", "the `;` comment case is missing or no longer skips exactly to the end of the line before scanning the next token")
+	// run terminators: a SYMBOL / METADATA run must stop at every rune that starts a token which may follow it
+	// (FOLLOW sets of the grammar) and at the comment introducer; white space is handled by the predicate itself
+	if lt, err := c.lexerTables(); err == nil {
+		follow := g.followSets()
+		tokenRunes := map[string][]rune{}
+		for r, tok := range lt.runeToken {
+			tokenRunes[tok] = append(tokenRunes[tok], r)
+		}
+		for _, run := range []struct {
+			tok, excl, label string
+			comment         bool
+		}{{"SYMBOL", lt.symbolExcl, "symbol", true}, {"METADATA", lt.metaExcl, "metadata", false}} {
+			c.site(1)
+			var missing []string
+			for ft := range follow[run.tok] {
+				for _, r := range tokenRunes[ft] {
+					if ft == "SYLLABLE" || ft == "REST" {
+						continue // letters are legitimate symbol characters; a following chord needs white space
+					}
+					if !strings.ContainsRune(run.excl, r) {
+						missing = append(missing, fmt.Sprintf("%q (%s)", r, ft))
+					}
+				}
+			}
+			if run.comment && !strings.ContainsRune(run.excl, ';') {
+				missing = append(missing, "';' (comment)")
+			}
+			sort.Strings(missing)
+			c.check(len(missing) == 0, name+"|"+run.label+"-terminators", c.pos(fn.Pos()), name, fmt.Sprintf("a %s run stops at %q, which covers every token that may follow it", run.label, run.excl), fmt.Sprintf("a %s run (terminators %q) does not stop at %v: the following token or comment is swallowed into the %s text", run.label, run.excl, missing, run.label))
+		}
+	}
 	// setters store their argument
 	for _, s := range []struct{ fn, field string }{{"(*LexScanner).SetExpectSymbol", "expectSymbol"}, {"(*LexScanner).SetExpectMetadata", "expectMetadata"}} {
 		sf := c.fn("input/ast", s.fn)
